@@ -39,7 +39,12 @@ def single_lines(tier):
     return out
 
 
-STRUCTURAL = [
+CYCLES = [".equ a = %s\n.equ b = %s\n%s" % (x, y, use)
+          for x in ("b", "low(b)", "b + 1", "-b", "~b", "(b)", "1 + high(b * 2)", "b == 1", "!b")
+          for y in ("a", "a + 1", "low(a)", "exp2(a)", "-a")
+          for use in ("ldi r16, a", ".dw a", ".if a\n.endif", ".org a", ".set s = a", ".dw low(a)", "rjmp a", "lds r16, b")]
+STRUCTURAL = CYCLES + [".equ a = low(a)\n.dw a", ".equ a = a * 2\n.if a\n.endif", ".set s = 1\n.set s = low(s2)\n.equ s2 = s2\n",
+    ".macro a\nb @0\n.endm\n.macro b\na @0\n.endm\na 1", ".macro a\n.if 1\na\n.endif\n.endm\na", ".macro a\n.dseg\n.cseg\na\n.endm\na",
     ".equ x = y\n.equ y = x\n.dw x", ".equ x = x\n.dw x", ".equ x = x + 1\nldi r16, x", ".set s = s\n", ".macro m\nm\n.endm\nm",
     ".macro a\nb\n.endm\n.macro b\na\n.endm\na", ".macro m\n.macro n\n.endm\nm", ".macro m\n.include \"x\"\n.endm\nm",
     ".if 1\n" * 300, ".endif\n" * 50, ".else\n" * 50, ".macro m\n" * 50, ".org 0xFFFFFFFF\nnop", ".org 0xFFFFFFFF\n.db 1,2,3",
